@@ -327,6 +327,23 @@ def run(tier, seed):
                 chk.violation('end to end: receiver resolved %r for plan %r' % (got, plan),
                               dict(kind='end-to-end', module='c20', plan=plan, got=got))
     chk.sample({'send_plans': plans[:3]})
+    # ---- a burst: the descriptors of many messages (more than any one message may carry) are all there before the
+    # first byte is read; every message still gets its own
+    binst = Instance('none', [], [mk_msg('call', i, fds=3, hperm=((2, 0, 1) if i % 2 else None), endian='lB'[i % 2]) for i in range(1, 9)], 'burst')
+    batch = []
+    for sty in ('one', 'big', 'mixed'):
+        reads = framing.random_partition(rng, binst.n, sty)
+        d = FdDriver(binst, 'stub')
+        tr2 = [({'n': 'Init'}, d.project())]
+        for name_, args in [('FdArrive', ())] * binst.total_fds + [('Read', (k,)) for k in reads]:
+            d.apply(name_, args)
+            rec = {'n': name_}
+            rec.update(dict(zip(ACTIONS[name_], args)))
+            tr2.append((rec, d.project()))
+        batch.append(tr2)
+    core.validate_and_report(chk, 'Framing', OBS_FD, ACTIONS, batch, binst.cfg([], spec=False), INVS, 'c20',
+                             {'inst': 'burst'}, 'burst of %d descriptors ahead of the bytes' % binst.total_fds, nproc=len(batch),
+                             extra={'FramingData.tla': binst.module('Framing', 1)})
     # ---- canary
     inst = fd_instance()
     acts = list(placements(inst, [inst.n]))[0]
